@@ -6,6 +6,46 @@
  * One case = one generated sequence.  Everything is decided by observing the real
  * library: model comparison of handles/copies, byte hashes of directories before
  * and after an operation, exit codes of other processes trying to open.
+ *
+ * link: lifemon.c model.c dbh.c vh.c iomon.c, wrap=build.WRAP_IO (pthread is linked).
+ *
+ * modes
+ *   lock     20-200 random steps over 1-2 directories: open/close; second ldb_open of
+ *            an open database through the same string, a relative path (after chdir),
+ *            a decorated path (//, trailing /, /./, /.., ..), a symlink; from a forked
+ *            child (inherits lcdb's lock table, holds no kernel lock) and from ANOTHER
+ *            PROCESS forked before any database was opened (empty lock table: only the
+ *            kernel lock on LOCK can stop it); failed opens (wrong comparator,
+ *            error_if_exists, missing + no create, 5 kinds of bad CURRENT, injected
+ *            I/O errors on MANIFEST/log) each followed by a correct open that must
+ *            succeed at once; ldb_copy / ldb_destroy of an open database; ldb_backup
+ *            into an existing path; ldb_copy and ldb_destroy of the closed database.
+ *   backup   model-checked histories (100-600 steps) with backups in the states
+ *            memtable-only, one-level, multi-level, imm-pending (just switched, and
+ *            with the flush parked inside its MANIFEST update by an iomon gate),
+ *            during a manual compaction (plain and gated), injected failures
+ *            (mkdir, LOCK, create, write, short write, link, fsync, read of the
+ *            source, final directory sync); copies are opened beside the open source,
+ *            compared with the model of the moment, written to, compacted, reopened,
+ *            re-checked after the source moved on; ldb_copy of the closed source.
+ *   destroy  directories with foreign files, sub-directories, symlinks, stale files
+ *            under owned names, the lost/ rules of ldb_destroy.
+ *   cmp      every ordered pair of the three comparators x fill level x logger kind.
+ *   conc     2-4 writers with numbered batches and a marker key, 1-3 backups while
+ *            they run; each copy must hold a whole-batch prefix per writer inside the
+ *            window [acked before invoke, begun before return].
+ *
+ * evidence counters: cases, steps, opens, refused_second_open_<alias kind>,
+ *   failed_open_<kind>, opens_after_failed_open, backups, backups_state_<class>,
+ *   backups_mem_and_multilevel, failed_backups_<fault>, keys_compared,
+ *   foreign_entries_checked, owned_entries_checked, comparator_pairs,
+ *   writer_prefixes_checked, prefixes_with_in_flight_batches, ...;
+ *   distinct set "c20_state" = <mode>|<db state class>|<operation>.
+ *
+ * A harness pitfall worth knowing: this process must never open()+close() a LOCK
+ * file of a database it holds open (closing ANY descriptor of a file drops the
+ * process's POSIX record locks on it); the directory hasher therefore skips LOCK.
+ * LIFEMON_TIMING=1 prints wall time per lock-mode action on stderr (cost analysis).
  */
 #include <dirent.h>
 #include <errno.h>
